@@ -22,7 +22,14 @@ use crate::{
 pub enum Plan {
     /// every listed offset (or all offsets 0..boundary) x every kind x every fragmentation
     Sweep { positions: Option<Vec<u32>> },
-    Single { at: u32, kind: FaultKind, frag: usize },
+    Single {
+        at: u32,
+        kind: FaultKind,
+        frag: usize,
+        /// transient fault: exactly one call fails, the stream then carries on
+        #[serde(default)]
+        once: bool,
+    },
 }
 
 #[derive(Clone, Debug, Serialize, Deserialize)]
@@ -56,9 +63,9 @@ fn kind_name(k: FaultKind) -> String {
 
 impl C07 {
     /// one sub-run; returns (violation class, detail) if the property is broken
-    fn sub_run(&self, data: &Arc<Vec<u8>>, mode: Mode, frag: &[Ev], at: u32, kind: FaultKind, rep: &mut RunReport, record: bool) -> (Option<(String, String)>, u64) {
+    fn sub_run(&self, data: &Arc<Vec<u8>>, mode: Mode, frag: &[Ev], at: u32, kind: FaultKind, once: bool, rep: &mut RunReport, record: bool) -> (Option<(String, String)>, u64) {
         let core = SimCore::new();
-        let src = SrcHandle::new(&core, data.clone(), SourceSpec { trace: frag.to_vec(), fault: Some(Fault { at: at as u64, kind }) });
+        let src = SrcHandle::new(&core, data.clone(), SourceSpec { trace: frag.to_vec(), fault: Some(Fault { at: at as u64, kind, once }) });
         src.set_record(record);
         let max_polls = frag.len() as u64 * 3 + data.len() as u64 * 2 + 64;
         let pr = run_parser(&core, &src, mode, max_polls, false, &[], 0);
@@ -85,7 +92,7 @@ impl C07 {
         }
         let v = match (&pr.outcome, kind) {
             (Outcome::Ok(_), FaultKind::Eof) => Some(("truncated-stream-accepted".to_string(), format!("{} returned {} although the stream ended at offset {at} of {} (before the end-of-attributes tag)", mode.name(), pr.outcome.short(), data.len()))),
-            (Outcome::Ok(_), FaultKind::Err(k)) => Some(("failing-stream-accepted".to_string(), format!("{} returned {} although the source failed with {k:?} at offset {at} of {}", mode.name(), pr.outcome.short(), data.len()))),
+            (Outcome::Ok(_), FaultKind::Err(k)) => Some(("failing-stream-accepted".to_string(), format!("{} returned {} although the source failed with {k:?} ({}) at offset {at} of {}", mode.name(), pr.outcome.short(), if once { "one failing call, the stream carried on behind it" } else { "sticky" }, data.len()))),
             (Outcome::Panic(m), _) => Some(("panic-on-faulty-stream".to_string(), format!("{} panicked ({m}) with {} at offset {at}", mode.name(), kind_name(kind)))),
             (Outcome::Io(got), FaultKind::Err(k)) if *got != k => Some(("io-error-kind-rewritten".to_string(), format!("{} reported Io({got:?}) for an injected {k:?} at offset {at}", mode.name()))),
             (Outcome::InvalidTag(_) | Outcome::InvalidCollection, FaultKind::Err(k)) => Some(("io-error-kind-rewritten".to_string(), format!("{} reported {} for an injected {k:?} at offset {at}", mode.name(), pr.outcome.class()))),
@@ -172,9 +179,9 @@ impl Prop for C07 {
         let mut agg = crate::rng::Fnv::default();
         let mut subs = 0u64;
         match &case.plan {
-            Plan::Single { at, kind, frag } => {
+            Plan::Single { at, kind, frag, once } => {
                 let f = case.frags.get(*frag).cloned().unwrap_or_default();
-                let (v, h) = self.sub_run(&data, case.mode, &f, *at, *kind, &mut rep, record);
+                let (v, h) = self.sub_run(&data, case.mode, &f, *at, *kind, *once, &mut rep, record);
                 agg.u64(h);
                 subs += 1;
                 if let Some((c, d)) = v {
@@ -198,16 +205,16 @@ impl Prop for C07 {
                         continue;
                     }
                     let (cl, inside) = refcodec::locate(&toks, at as usize);
-                    for kind in kinds_for(case.mode) {
+                    for (kind, once) in kinds_for(case.mode).into_iter().flat_map(|k| if matches!(k, FaultKind::Err(_)) { vec![(k, false), (k, true)] } else { vec![(k, false)] }) {
                         for (fi, f) in case.frags.iter().enumerate() {
-                            let (v, h) = self.sub_run(&data, case.mode, f, at, kind, &mut rep, false);
+                            let (v, h) = self.sub_run(&data, case.mode, f, at, kind, once, &mut rep, false);
                             agg.u64(h);
                             subs += 1;
-                            rep.count(&format!("fault_kind.{}", kind_name(kind)), 1);
+                            rep.count(&format!("fault_kind.{}{}", kind_name(kind), if once { ".transient" } else { "" }), 1);
                             rep.count(&format!("reach.fault_{}.{}", if inside { "inside" } else { "before" }, cl.name()), 1);
                             if let Some((c, d)) = v {
                                 rep.violate(&c, d);
-                                let single = Case { plan: Plan::Single { at, kind, frag: fi }, ..case.clone() };
+                                let single = Case { plan: Plan::Single { at, kind, frag: fi, once }, ..case.clone() };
                                 rep.reduced = serde_json::to_value(&single).ok();
                                 break 'sweep;
                             }
@@ -227,24 +234,25 @@ impl Prop for C07 {
 
     fn shrink(&self, c: &Case) -> Vec<Case> {
         let mut out = Vec::new();
-        if let Plan::Single { at, kind, frag } = &c.plan {
+        if let Plan::Single { at, kind, frag, once } = &c.plan {
+            let once = *once;
             if *frag != 0 {
-                out.push(Case { plan: Plan::Single { at: *at, kind: *kind, frag: 0 }, ..c.clone() });
+                out.push(Case { plan: Plan::Single { at: *at, kind: *kind, frag: 0, once }, ..c.clone() });
             }
             for stream in shrink_stream(&c.stream) {
                 // keep the fault at the same offset and also try it at the same distance from the end
                 out.push(Case { stream, ..c.clone() });
             }
             if *at > 0 {
-                out.push(Case { plan: Plan::Single { at: at / 2, kind: *kind, frag: *frag }, ..c.clone() });
-                out.push(Case { plan: Plan::Single { at: at - 1, kind: *kind, frag: *frag }, ..c.clone() });
+                out.push(Case { plan: Plan::Single { at: at / 2, kind: *kind, frag: *frag, once }, ..c.clone() });
+                out.push(Case { plan: Plan::Single { at: at - 1, kind: *kind, frag: *frag, once }, ..c.clone() });
             }
         }
         out
     }
 
     fn rule(&self) -> String {
-        "Each evaluation = one seeded well-formed message x one parser front end, swept: a single sticky fault (stream cut = EOF; or I/O error kind in {ConnectionReset, ConnectionAborted, TimedOut, BrokenPipe, UnexpectedEof, PermissionDenied, Other} + WouldBlock for blocking) at each chosen byte offset before the end-of-attributes tag (quick: ~34 offsets biased to token edges +-1; thorough: every offset), each under three fragmentations (whole, one byte per read so the fault lands inside a partially filled read_exact, seeded composition with EINTR / Pending). 'sub_runs' counts the individual fault placements. Oracle: result is Err; for an injected error, IoError with exactly the injected kind; never Ok, never a panic; executor invariants. distinct_nontrivial = distinct hashes of the whole sweep (source call sequences + outcome classes) over messages with >= 1 attribute."
+        "Each evaluation = one seeded well-formed message x one parser front end, swept: a single fault (stream cut = sticky EOF; or I/O error kind — once sticky and once transient, i.e. exactly one failing call with the stream carrying on behind it — in {ConnectionReset, ConnectionAborted, TimedOut, BrokenPipe, UnexpectedEof, PermissionDenied, Other} + WouldBlock for blocking) at each chosen byte offset before the end-of-attributes tag (quick: ~34 offsets biased to token edges +-1; thorough: every offset), each under three fragmentations (whole, one byte per read so the fault lands inside a partially filled read_exact, seeded composition with EINTR / Pending). 'sub_runs' counts the individual fault placements. Oracle: result is Err; for an injected error, IoError with exactly the injected kind; never Ok, never a panic; executor invariants. distinct_nontrivial = distinct hashes of the whole sweep (source call sequences + outcome classes) over messages with >= 1 attribute."
             .into()
     }
     fn assumptions(&self) -> Vec<String> {
